@@ -1,5 +1,6 @@
 import QecVerif.Model.Wire
 import QecVerif.Model.Matching
+import QecVerif.Model.Blossom5
 namespace Qec.Drv
 open Qec Qec.Wire Qec.Matching
 
@@ -8,6 +9,19 @@ open Qec Qec.Wire Qec.Matching
     ops / graph : entries `a,b,n/d` joined by `;` (`_` = empty); for a graph the order is dict order
     mates       : pairs `a,b` joined by `;` (`_` = empty)
     rat list    : `n/d` joined by `;` (`_` = empty)
+    int edges   : entries `a,b,w` (w an integer) joined by `;` (`_` = empty), in list order   (Blossom V wrapper ops)
+    nat list    : `3,1,2` (`_` = empty): a node listing (`list(set(...))` as observed) / the array `mates_array`
+
+  Blossom V wrapper ops (`b5ids`, `b5objs`, `b5gt`, `b5mwpm`) run Model/Blossom5.lean — `mwpmIds`, `mwpmObjs`,
+  `mwpmBlossom5` and the dispatch `Matching.mwpm` — with `clib` instantiated by a TABLE LOOK-UP: the harness supplies
+  the array `mates_array` the (stand-in) C routine left behind; the table answers with it exactly when it is consulted
+  with the arguments `(n_nodes, edge arrays)` printed in the reply, so the printed arrays are those the MODEL hands to
+  its `clib` parameter (`args=ok`; checked by a second run with a probe table).  Reply:
+      a=<nodes_a> b=<nodes_b> w=<weights> n=<n_nodes> args=ok assert=ok ids=<id pairs> mates=<node pairs>
+      assert=fail                                      (the `assert` of `mwpm_ids`)
+      empty                                            (`if not graph: return set()` of `mwpm_blossom5`)
+      w2i-none                                         (non-integer weight under the identity rule: cannot arise)
+  pairs are printed in sorted order (they are sets), each pair as the model built it.
 -/
 namespace C13
 
@@ -48,6 +62,61 @@ def showCheck (g : Graph) (m : List Edge) : String :=
   "pm=" ++ showBool (isPerfectMatching g m) ++ " w=" ++ showRat (matchingWeight g m) ++
     " min=" ++ showOpt showRat (minPMGraph g)
 
+/-! #### Blossom V wrapper (Model/Blossom5.lean) -/
+
+def parseIEdge? (s : String) : Option Blossom5.IEdge :=
+  match s.splitOn "," with
+  | [a, b, w] => do
+      let a ← a.toNat?
+      let b ← b.toNat?
+      let w ← w.toInt?
+      pure (a, b, w)
+  | _ => none
+
+def parseIEdges? (s : String) : Option (List Blossom5.IEdge) :=
+  if s == "_" then some [] else (s.splitOn ";").mapM parseIEdge?
+
+def pairLe (p q : Nat × Nat) : Bool := p.1 < q.1 || (p.1 == q.1 && p.2 ≤ q.2)
+
+def showPairs (l : List (Nat × Nat)) : String :=
+  if l.isEmpty then "_" else
+  ";".intercalate ((l.mergeSort pairLe).map fun p => toString p.1 ++ "," ++ toString p.2)
+
+/-- One run of the modelled wrapper.  `run clib` = the modelled function with everything but the C routine fixed;
+    `es` = the id edges expected at the C boundary, `mates` = the array the C routine left behind.  `clib` is the
+    look-up table `(n_nodes, es) ↦ mates` (any other argument ↦ `[]`); `args` reports whether `run` consults its
+    `clib` with exactly `(n_nodes, es)`: a probe table answers `[0]` there and `[1]` elsewhere, so that the pair built
+    from slot 0 is `diag` = (node 0, node 0) exactly when the arguments are the printed ones. -/
+def b5Report (run : Blossom5.Clib → Option (List (Nat × Nat))) (diag : Nat × Nat) (es : List Blossom5.IEdge)
+    (mates : List Nat) : String :=
+  let n := (Blossom5.nodeIds es).length
+  let table : Blossom5.Clib := fun n' es' => if n' == n && es' == es then mates else []
+  let probe : Blossom5.Clib := fun n' es' => if n' == n && es' == es then [0] else [1]
+  match run table, Blossom5.mwpmIds table es with
+  | some ms, some is =>
+      let seen := n == 0 || (match run probe with | some l => l.contains diag | none => false)
+      "a=" ++ showNatList (es.map (·.1)) ++ " b=" ++ showNatList (es.map (·.2.1)) ++
+        " w=" ++ showIntList (es.map (·.2.2)) ++ " n=" ++ toString n ++
+        " args=" ++ (if seen then "ok" else "DIFFER") ++ " assert=ok ids=" ++ showPairs is ++ " mates=" ++ showPairs ms
+  | _, _ => "assert=fail"
+
+/-- `node_to_id` applied to an edge list, as `blossom5.mwpm` does it -/
+def idEdges (nodes : List Node) (edges : List Blossom5.IEdge) : List Blossom5.IEdge :=
+  edges.map fun e => (nodes.idxOf e.1, nodes.idxOf e.2.1, e.2.2)
+
+/-- `graphtools.mwpm_blossom5(graph)`; `prods` = the float products `weight * scaling`, parallel to the graph -/
+def b5Gt (infty : Rat) (allInt : Bool) (nodes : List Node) (g : Graph) (prods : List Rat) (mates : List Nat) :
+    String :=
+  let prod : Rat → Rat := fun w => match (g.zip prods).find? (fun x => x.1.2 == w) with
+    | some x => x.2 | none => 0
+  let run := fun clib => Blossom5.mwpmBlossom5 infty allInt prod nodes clib g
+  if g.isEmpty then (if run (fun _ _ => [1]) == some [] then "empty" else "not-empty")
+  else
+    let ws := g.map (·.2)
+    match Blossom5.allSome (g.map fun e => (weightToInt infty allInt ws e.2 (prod e.2)).map fun z => (e.1.1, e.1.2, z)) with
+    | none => if (run (fun _ _ => [])).isNone then "w2i-none" else "w2i-DIFFER"
+    | some edges => b5Report run (nodes.getD 0 0, nodes.getD 0 0) (idEdges nodes edges) mates
+
 end C13
 open C13
 
@@ -84,6 +153,43 @@ def c13 : List String → Option String
       let kind := match weightToIntKind infty allInt ws with
         | .zero => "zero" | .ident => "ident" | .scaled => "scaled"
       pure (kind ++ " " ++ showOpt toString (weightToInt infty allInt ws wt prod))
+  -- blossom5.mwpm_ids(edges)
+  | ["b5ids", es, mates] => do
+      let es ← parseIEdges? es
+      let mates ← parseNatList? mates
+      pure (b5Report (fun clib => Blossom5.mwpmIds clib es) (0, 0) es mates)
+  -- blossom5.mwpm(edges), nodes = the observed listing list(set(...))
+  | ["b5objs", nodes, edges, mates] => do
+      let nodes ← parseNatList? nodes
+      let edges ← parseIEdges? edges
+      let mates ← parseNatList? mates
+      pure (b5Report (fun clib => Blossom5.mwpmObjs nodes clib edges) (nodes.getD 0 0, nodes.getD 0 0)
+        (idEdges nodes edges) mates)
+  -- graphtools.mwpm_blossom5(graph)
+  | ["b5gt", infty, allInt, nodes, g, prods, mates] => do
+      let infty ← parseRat? infty
+      let allInt ← parseBool? allInt
+      let nodes ← parseNatList? nodes
+      let g ← parseGraph? g
+      let prods ← parseRats? prods
+      let mates ← parseNatList? mates
+      if prods.length != g.length then none
+      else pure (b5Gt infty allInt nodes g prods mates)
+  -- graphtools.mwpm(graph): dispatch on blossom5.available()
+  | ["b5mwpm", avail, infty, allInt, nodes, g, prods, mates] => do
+      let avail ← parseBool? avail
+      let infty ← parseRat? infty
+      let allInt ← parseBool? allInt
+      let nodes ← parseNatList? nodes
+      let g ← parseGraph? g
+      let prods ← parseRats? prods
+      let mates ← parseNatList? mates
+      if prods.length != g.length then none
+      else
+        -- which backend `Matching.mwpm` hands the graph to (marker matchings)
+        let toB5 := Matching.mwpm avail (fun _ => [(1, 1)]) (fun _ => [(0, 0)]) g == [(1, 1)]
+        if toB5 then pure ("dispatch=blossom5 " ++ b5Gt infty allInt nodes g prods mates)
+        else pure "dispatch=networkx"
   | _ => none
 
 end Qec.Drv
